@@ -901,6 +901,21 @@ func exec(c vh.Case, o *vh.Out) {
 				}
 				s.want[p] = map[int]bool{}
 			}
+			for k := range s.lostRisk {
+				// a lost block-arrival notification is superseded by a fresh lookup: any later entry of the
+				// peer for that CID, or a full want-list
+				if k[0] != p {
+					continue
+				}
+				if full && len(m.entries) > 0 {
+					delete(s.lostRisk, k)
+				}
+				for _, en := range m.entries {
+					if s.idx[en.Cid] == k[1] {
+						delete(s.lostRisk, k)
+					}
+				}
+			}
 			for _, en := range m.entries {
 				ci := s.idx[en.Cid]
 				k := [2]int{p, ci}
@@ -956,7 +971,11 @@ func exec(c vh.Case, o *vh.Out) {
 				}
 				// a task for ci was popped for p while the block was missing (DONT_HAVE or nothing was sent in
 				// its place) and its envelope is still un-acked: the engine will skip this notification
-				if _, act := s.e.VerifQueueTopics(pid(p)); containsCid(act, s.pool[ci].blk.Cid()) {
+				// (only if p has ci on its want-list now: NotifyNewBlocks looks at nobody else, and a want that
+				// arrives later is a fresh lookup, not this notification)
+				ledgerNow, _ := s.e.VerifLedger()
+				_, onList := ledgerNow[pid(p)][s.pool[ci].blk.Cid()]
+				if _, act := s.e.VerifQueueTopics(pid(p)); onList && containsCid(act, s.pool[ci].blk.Cid()) {
 					carried := false
 					for _, oe := range s.outst {
 						if pidx(oe.env.Peer) != p {
@@ -1033,6 +1052,11 @@ func exec(c vh.Case, o *vh.Out) {
 			s.outst = rest
 			s.want[p] = map[int]bool{}
 			s.truncRisk[p] = false
+			for k := range s.lostRisk {
+				if k[0] == p {
+					delete(s.lostRisk, k)
+				}
+			}
 			o.Kind("disc")
 		case "drain", "wdrain":
 			got := map[int]*sent{}
